@@ -596,6 +596,8 @@ class Interp:
         if isinstance(v, SegList):
             return self.seg_len(v)
         if isinstance(v, SObj):
+            if '__len__' in v.attrs:
+                return self.call(v.attrs['__len__'], [], {})
             m = self.find_method_obj(v, '__len__')
             if m is not None:
                 return self.call_function(m, [], {})
@@ -851,6 +853,15 @@ class Interp:
         return lo, hi
 
     def arr_slice(self, a, sl):
+        if sl.step in (None, 1) and sl.start is not None and sl.stop is not None and not self.spec_mode:
+            zs, ze, zn = to_z3(self._num(sl.start)), to_z3(self._num(sl.stop)), to_z3(a.n)
+            if self.valid(z3.And(0 <= zs, zs <= ze, ze <= zn)):
+                k = z3.Int('k!sl')
+                n = z3.simplify(ze - zs)
+                n = n.as_long() if z3.is_int_value(n) else n
+                r = SArr(n, [z3.Lambda([k], z3.Select(l, k + zs)) for l in a.leaves], a.kind, a.np)
+                r.view_of = a if a.np else None
+                return r
         lo, hi = self.slice_bounds(sl, a.n)
         k = z3.Int('k!sl')
         leaves = [z3.Lambda([k], z3.Select(l, k + lo)) for l in a.leaves]
@@ -1053,6 +1064,8 @@ class Interp:
                 return obj[obj._fields.index(name)]
             raise PyRaise('AttributeError', (name,))
         if isinstance(obj, ModuleVal):
+            if f'module:{obj.name}.{name}' in self.hooks:
+                return Builtin(self.hooks[f'module:{obj.name}.{name}'], f'{obj.name}.{name}')
             if name in obj.attrs:
                 return obj.attrs[name]
             raise Unsupported(f'{obj.name}.{name} has no model')
@@ -1291,9 +1304,46 @@ class Interp:
         return k
 
     def _comp(self, e, ctor):
+        if len(e.generators) == 1 and not e.generators[0].ifs:
+            it = self.eval(e.generators[0].iter)
+            if isinstance(it, SArr) and not isinstance(it.n, int):
+                return self._comp_elementwise(e, it)
+            out = []
+            fr = self.frames[-1]
+            for item in self.iter_concrete(it):
+                saved = dict(fr.locals)
+                self.assign_target(e.generators[0].target, item)
+                out.append(self.eval(e.elt))
+                for n in list(fr.locals):
+                    if n not in saved:
+                        del fr.locals[n]
+                    else:
+                        fr.locals[n] = saved[n]
+            return ctor(out)
         out = []
         self._comp_rec(e.generators, 0, lambda: out.append(self.eval(e.elt)))
         return ctor(out)
+
+    def _comp_elementwise(self, e, arr):
+        """[f(x) for x in arr] over a list of symbolic length: defined pointwise (no branching allowed in f)."""
+        k = z3.Int(fresh_name('ce'))
+        el = self.unflat_elem([z3.Select(l, k) for l in arr.leaves], arr.kind)
+        fr = self.frames[-1]
+        saved = dict(fr.locals)
+        self.assign_target(e.generators[0].target, el)
+        self.spec_mode += 1
+        try:
+            r = self.eval(e.elt)
+        finally:
+            self.spec_mode -= 1
+            for n in list(fr.locals):
+                if n not in saved:
+                    del fr.locals[n]
+                else:
+                    fr.locals[n] = saved[n]
+        kind = kind_of_scalar(r)
+        flat = self.flat_elem(r, kind)
+        return SArr(arr.n, [z3.Lambda([k], t) for t in flat], kind, False)
 
     def _comp_rec(self, gens, gi, emit):
         if gi == len(gens):
